@@ -119,7 +119,8 @@ def parseOp (s : St) (toks : List String) : Option Op :=
   | "start" => some .start
   | "stop" => some .stop
   | "verify" => some .verify
-  | "obs" | "announce" | "diskcheck" | "magnet" => some .nop
+  | "obs" | "announce" | "diskcheck" | "magnet" | "crashcheck" => some .nop
+  | "persist" => some .persist
   | "mutate" =>
     let file := if kvStr toks "file" = "all" then none else some (kvNat toks "file")
     let how := match kvStr toks "how" with
@@ -193,6 +194,7 @@ def renderObs (s : St) (verdict : String) (outs : List Out) (impl : List (String
     | "dl" => dlTok
     | "idl" => joinOrDash (s.idls.map fun d => toString d.k)
     | "dials" => toString s.dials
+    | "crash" => "ok"
     | "pexon" => joinOrDash ((s.peers.filter (·.pexOn)).map fun p => toString p.k)
     | "pid" => if s.cfg.isPrivate && s.infoAtAdd then "priv" else "pub"
     | "magnet" => if s.info && s.cfg.isPrivate then "refused" else "ok"
@@ -283,7 +285,9 @@ def oracles (prev s : St) (impl : List (String × String)) (prevDials : Nat := 0
             if msg.startsWith "exths:" && (msg.splitOn "v=PrivClient_1").length < 2 then some "C19 private-torrent-public-client-version" else none
         else []
       else [])
-  c01a ++ c01b ++ c01c ++ c04 ++ c10 ++ c17 ++ c19
+  -- C05: a restart from the resume data and disk as they are now must not treat unwritten pieces as held
+  let c05 := if get "crash" ≠ "" && get "crash" ≠ "ok" then [s!"C05 restart-claims-more-than-disk crash={get "crash"}"] else []
+  c01a ++ c01b ++ c01c ++ c04 ++ c10 ++ c17 ++ c19 ++ c05
 
 /-- C04: after the final phase (restart + honest seed answering every request) the torrent must be
 complete with correct files. -/
@@ -303,6 +307,10 @@ def stepDriver (d : DSt) (op implObs : String) : DSt × String × List String :=
     let c := parseNew toks
     let (v, impl) := splitObs implObs
     let s := initSt c (kvStr toks "magnet" = "1")
+    let seeded := kvStr toks "seeded" = "1"
+    let s := if seeded then { s with known := c.flens.map (fun _ => true), fileExists := c.flens.map (fun _ => true), bad := [] } else s
+    let s := { s with nUnchoke := ((kv? toks "cfg.UnchokedPeers").bind (·.toNat?)).getD 3,
+                      nOptimistic := ((kv? toks "cfg.OptimisticUnchokedPeers").bind (·.toNat?)).getD 1 }
     let s := { s with infoAtAdd := kvStr toks "magnet" ≠ "1", isize := (((impl.find? fun (k, _) => k = "isize").bind fun (_, x) => x.toNat?)).getD 0,
                       maxMeta := ((kv? toks "cfg.MaxMetadataSize").bind (·.toNat?)).getD 31457280,
                       parMeta := ((kv? toks "cfg.ParallelMetadataDownloads").bind (·.toNat?)).getD 2 }
